@@ -54,7 +54,7 @@ var reqHeaders = []string{
 	"Transfer-Encoding: identity\r\nContent-Length: 3", "Transfer-Encoding:",
 	"Transfer-Encoding: chunked\r\nContent-Length: 3", "Content-Length: 3\r\nTransfer-Encoding: chunked", "Content-Length: 3\r\nTransfer-Encoding: identity",
 	"Connection: close", "Connection: keep-alive", "Connection: Close", "Connection: close, x", "Connection: Keep-Alive, Upgrade",
-	"connection: upgrade", "Connection:   close", "Connection: close\r\nConnection: keep-alive",
+	"connection: upgrade", "Connection:   close", "Connection: keep-alive,\tclose", "Connection: x\t,\tclose\t, y", "Connection: \tclose", "Connection: close\r\nConnection: keep-alive",
 	"Expect: 100-continue", "Trailer: Foo, Bar", "Trailer: Content-Length", "Trailer: foo,, ,bar", "Trailer: x-forwarded-for",
 	"Trailer: X-Real-Ip, Proxy-Connection, Content-Typ", "Trailer: b\x01d", "Trailer: Proxy-Authorization", "Trailer: a\r\nTrailer: Host",
 	"Trailer: Content-Encodin, Content-Rangee, Proxy-Authenticate, Range, Set-Cookie, WWW-Authenticate, TE, Max-Forwards, Keep-Alive, Location, Expect, Authorization, Cookie, Connection",
@@ -72,7 +72,7 @@ var respHeaders = []string{
 	"Transfer-Encoding: chunked\r\nTransfer-Encoding: chunked", "Transfer-Encoding: chunked\r\nContent-Length: 3",
 	"Content-Length: 3\r\nTransfer-Encoding: chunked",
 	"Connection: close", "Connection: keep-alive", "Connection: Upgrade", "Connection: keep-alive, Upgrade", "connection: upgrade",
-	"Connection: Close", "Connection: close\r\nConnection: keep-alive", "Connection: x\r\nConnection: Upgrade",
+	"Connection: Close", "Connection: close\r\nConnection: keep-alive", "Connection: x\r\nConnection: Upgrade", "Connection: keep-alive,\tclose", "Connection: x,\tUpgrade\t", "Set-Cookie: \tk\t=v",
 	"Server: s/1", "server: t", "Set-Cookie: a=b; Path=/", "Set-Cookie:  k = v", "Set-Cookie: novalue", "set-cookie: =x", "Set-Cookie:",
 	"Content-Type: text/html", "Content-Encoding: gzip", "content-encoding: br", "Trailer: Foo, Bar", "Trailer: Content-Length",
 	"Trailer: foo,, ,bar", "Date: today", "X-Foo: bar", "X Foo: bar", "X-Foo : bar", " : v", ": v", "NoColon", "X-F\xc3\xb6o: bar",
